@@ -97,6 +97,8 @@ def _strategy(draw):
             mt, e = draw(st.sampled_from(cands))
             mt["vs_only_edges"] = [list(e)]
             spec["vs_only"] = True
+    if draw(st.integers(0, 5)) == 0:
+        spec["stale_atomtype"] = draw(st.sampled_from([a["name"] for a in spec["atomtypes"]]))
     edge = gc.dilute_box(spec)
     opts = {}
     box_kind = draw(st.sampled_from(["box", "box", "rect", "dens"]))
